@@ -113,6 +113,48 @@ def cases(ctx):
                                'bytes': c.get('field_processor') == 'ICC'}
 
 
+    # text the chosen encoding cannot express: there are no bytes that are "the text in the chosen encoding", so dumps must not
+    # hand any back (a '?' in its place is a different message)
+    for cid in cids[:3]:
+        cfg = msgwork.cfg_of(cid)
+        for b in gen.data_bits(cfg):
+            c = cfg[str(b)]
+            if not gen.is_text(c) or c.get('field_processor') in ('ICC', 'PDS', 'DE43', 'PAN', 'PAN-PREFIX'):
+                continue
+            for enc, ch in (('latin_1', '\u0142'), ('cp500', '\u20ac'), ('ascii', '\xe9'), ('cp1252', '\u0416'), ('latin_1', '\U0001f600')):
+                i += 1
+                if ctx.mine(i):
+                    yield {'class': 'unencodable', 'cfg': cid, 'enc': enc, 'hex': bool(i % 2), 'bit': b, 'ch': ch, 'at': i % 3}
+
+
+def judge_unencodable(ctx, case):
+    iso = ctx.iso
+    cfg = msgwork.cfg_of(case['cfg'])
+    b, enc, ch = case['bit'], case['enc'], case['ch']
+    c = cfg[str(b)]
+    w = ref.PREFIX[c['field_type']]
+    n = c['field_length'] if not w else min(12, 10 ** w - 1)
+    if n < 1:
+        return
+    pos = (0, n // 2, n - 1)[case['at']]
+    v = ('A' * n)[:pos] + ch + ('A' * n)[pos + 1:]
+    ctx.case_done(case)
+    try:
+        v.encode(enc)
+        return          # the codec can express it after all: nothing to refuse
+    except UnicodeError:
+        pass
+    ctx.count('class:unencodable')
+    kind, data = ctx.call(iso.dumps, {'MTI': '1240', 'DE%d' % b: v}, encoding=enc, iso_config=cfg, hex_bitmap=case['hex'], budget=400000)
+    ctx.count('dumps calls')
+    if kind == 'steps':
+        ctx.violation('refusal:step_budget', {'case': case})
+    elif kind == 'ok':
+        ctx.violation('refusal:text_outside_the_encoding_emitted:%s' % c['field_type'], {'case': case, 'value': v, 'emitted': hx(data)[:160]})
+    else:
+        ctx.count('text outside the encoding refused with ' + type(data).__name__)
+
+
 def judge_threads(ctx, case):
     """dumps called from several threads at once: every thread must get the wire image it gets when alone."""
     import sys
@@ -171,6 +213,8 @@ def judge_threads(ctx, case):
 def judge(ctx, case):
     if case['class'] == 'refusal':
         return judge_refusal(ctx, case)
+    if case['class'] == 'unencodable':
+        return judge_unencodable(ctx, case)
     if case['class'] == 'threads':
         return judge_threads(ctx, case)
     iso = ctx.iso
@@ -335,6 +379,8 @@ def require(m):
         reasons.append('threaded dumps did not overlap')
     if not c.get('class:refusal'):
         reasons.append('refusal cases not driven')
+    if not c.get('class:unencodable'):
+        reasons.append('text outside the encoding never offered to dumps')
     feats = set(m['classes'].get('encode-side spellings', ()))
     for need in ('number_as_string', 'date_as_iso_string', 'short_fixed_text', 'empty_or_none_value', 'decimal_in_exponent_form'):
         if need not in feats:
